@@ -5,4 +5,7 @@ def n2QuatThr : Rat := (-3 : Rat) / 4503599627370496
 def floatEps : Rat := (1 : Rat) / 4503599627370496
 def rtol : Rat := (5902958103587057 : Rat) / 590295810358705651712
 def atol : Rat := (3022314549036573 : Rat) / 302231454903657293676544
+/-- `nibabel.nifti1.xform_codes`: every valid code with its string aliases -/
+def xformTable : List (Nat × List String) := [(0, ["NIFTI_XFORM_UNKNOWN", "unknown"]), (1, ["NIFTI_XFORM_SCANNER_ANAT", "scanner"]), (2, ["NIFTI_XFORM_ALIGNED_ANAT", "aligned"]), (3, ["NIFTI_XFORM_TALAIRACH", "talairach"]), (4, ["NIFTI_XFORM_MNI_152", "mni"]), (5, ["NIFTI_XFORM_TEMPLATE_OTHER", "template"])]
+def xformCodes : List Nat := xformTable.map (·.1)
 end Nb.C04.Gen
